@@ -56,8 +56,8 @@ if notes:
 out.append('''
 **(b) Own mutants** (`/verif/mutants/*.patch`, `tools/make_mutants.py`): 39 single-site edits in the style
 of the design's list (wrong constant, flipped comparison, dropped bookkeeping update, swapped
-arguments, ...). The existing test-suite kills 28 of them; the 11 survivors plus two hand-made ones are
-run against the check of the property they target.
+arguments, ...). The existing test-suite kills 28 of them; the 11 survivors, two hand-made ones and four patches that
+revert the `fix:` commits are run against the check of the property they target.
 ''')
 out.append('| mutant | property | file | caught | first failing sub-check: signature |\n|---|---|---|---|---|')
 for name,info in sorted(midx.items()):
@@ -65,7 +65,8 @@ for name,info in sorted(midx.items()):
     pid=info['property']; r=mres.get(name,{}).get(pid,{})
     first=r.get('first',''); m=re.match(r'\[(\w+)\]\s+([^:]+):',first)
     how=f'`{m.group(1)}`: {m.group(2)}' if m else short(first,80)
-    out.append(f"| {name} | {pid} | {info.get('file','')} | {'yes' if r.get('rc')==1 else ('**no**' if r else 'not run')} | {esc(how)} |")
+    verdict='yes' if r.get('rc')==1 else ('no - '+info['note'] if info.get('note') else ('**no**' if r else 'not run'))
+    out.append(f"| {name} | {pid} | {info.get('file','')} | {verdict} | {esc(how)} |")
 killed=[n for n,i in midx.items() if i.get('status')=='caught-by-existing-tests']
 out.append(f"\nKilled by the existing test-suite already (not interesting for the checks): {', '.join(sorted(killed))}.")
 out.append('''
